@@ -603,15 +603,15 @@ pub fn run(ctx: &mut Ctx) {
         return;
     }
     let env = Env::new(ctx);
-    let n = ctx.n(48, 3000);
+    let n = ctx.n(96, 3000);
     ctx.run_cases("interleave", n, false, |ctx, rng, _| {
         interleave(ctx, &env, rng);
     });
-    let n = ctx.n(32, 2000);
+    let n = ctx.n(64, 2000);
     ctx.run_cases("setter-history", n, false, |ctx, rng, _| {
         setter_history(ctx, &env, rng);
     });
-    let n = ctx.n(16, 400);
+    let n = ctx.n(32, 400);
     ctx.run_cases("concurrent", n, false, |ctx, rng, idx| {
         concurrent(ctx, &env, rng, idx);
     });
